@@ -571,7 +571,12 @@ class Run:
             if getattr(self, 'reboot_until', 0.0) > w.now:
                 w.run_until(self.reboot_until + 1.0)
             # quiet period: until quiescence with OPERATION everywhere, bounded
-            self.outcome['settled'] = self.wait_operation(knobs.get('settle_ticks', 80))
+            if knobs.get('closing_at_once'):
+                # the closing request arrives while the last user request is still being carried out
+                w.run_for(self.rng.choice(knobs['closing_at_once']))
+                self.outcome['settled'] = False
+            else:
+                self.outcome['settled'] = self.wait_operation(knobs.get('settle_ticks', 80))
             for kind in knobs.get('after_settling', ()):
                 self.do_action(kind)
                 w.run_for(4 * TICK)
